@@ -228,6 +228,11 @@ func jsonRandTable(r *RNG, badUTF8 bool) TableSpec {
 	if r.Pct(8) {
 		ts.SkipEarly = map[int]int{0: 1 + r.Intn(2)}
 	}
+	h2 := ts.Header2
+	enrichSpec(r, &ts, func(r *RNG) ItemSpec { return Str(jsonKeyText(r)) })
+	if h2 != nil {
+		ts.Header2 = h2
+	}
 	return ts
 }
 
@@ -367,7 +372,7 @@ func runRenderCase(ts TableSpec) CaseOut {
 	// the table is built and rendered (through a wrapper reused across staged
 	// renders when the spec has stages); the view it is judged against is
 	// computed from the spec, not read back from the table
-	o := ts.BuildRender(t, func(t tabular.Table) func() (string, error) { w := tjson.Wrap(t); return w.Render })
+	o := ts.BuildRenderW(t, func(t tabular.Table) RenderW { return tjson.Wrap(t) })
 	v := ts.SpecView()
 	enc := func(s string) string {
 		b, err := json.Marshal(s)
@@ -501,6 +506,34 @@ func init() {
 						}
 					}
 				}
+			}
+			// every history of up to 4 SetProperty calls on column 1 (and the same on the
+			// defaults column 0) over {skipable true, false, nil, some other key}, on a table
+			// with empty cells in that column: the setting in force is the last one made
+			{
+				hdr := []ItemSpec{Str("k"), Str("v")}
+				base := TableSpec{Header: &hdr, Rows: []RowSpec{{Cells: []ItemSpec{Str(""), Str("")}}, {Cells: []ItemSpec{Str("x"), Str("")}}, {Cells: []ItemSpec{Str(""), Str("y")}}}}
+				alphabet := []PropOp{{Key: 1, Val: 1}, {Key: 1, Val: 2}, {Key: 1, Val: 0}, {Key: 2, Val: 7}}
+				var rec func(ops []PropOp, depth int)
+				rec = func(ops []PropOp, depth int) {
+					if len(ops) > 0 {
+						for _, col := range []int{1, 0} {
+							ts := base
+							for _, o := range ops {
+								o.Col = col
+								ts.PropOps = append(ts.PropOps, o)
+							}
+							add(ts)
+						}
+					}
+					if depth == 0 {
+						return
+					}
+					for _, o := range alphabet {
+						rec(append(append([]PropOp{}, ops...), o), depth-1)
+					}
+				}
+				rec(nil, 4)
 			}
 			cellText := func(r *RNG) ItemSpec {
 				if r.Pct(50) {
